@@ -13,9 +13,12 @@ use tokio_util::bytes::BytesMut;
 use super::Socks5AddressType;
 use crate::protocol::address::Address;
 
-pub fn encode(addr: &Address, dst: &mut BytesMut) {
+pub fn encode(addr: &Address, dst: &mut BytesMut) -> Result<()> {
     match addr {
         Address::Domain(host, port) => {
+            if host.len() > u8::MAX as usize {
+                bail!("domain name too long: {} bytes", host.len());
+            }
             dst.put_u8(Socks5AddressType::Domain as u8);
             dst.put_u8(host.len() as u8);
             dst.extend_from_slice(host.as_bytes());
@@ -32,6 +35,7 @@ pub fn encode(addr: &Address, dst: &mut BytesMut) {
             dst.put_u16(v6.port())
         }
     }
+    Ok(())
 }
 
 pub fn decode(src: &mut BytesMut) -> Result<Address> {
